@@ -50,8 +50,10 @@ func (v *StructSchema) Merge(other *StructSchema, others ...*StructSchema) *Stru
 // The new schema shares references to the transforms, tests and inner schema.
 func (v *StructSchema) cloneShallow() *StructSchema {
 	new := &StructSchema{
-		postTransforms: v.postTransforms,
-		tests:          v.tests,
+		// full slice expressions: the clone must not share spare capacity with v, otherwise a test or transform
+		// appended to one of them overwrites the one appended to the other
+		postTransforms: v.postTransforms[:len(v.postTransforms):len(v.postTransforms)],
+		tests:          v.tests[:len(v.tests):len(v.tests)],
 		required:       v.required,
 		schema:         v.schema,
 	}
